@@ -5,7 +5,7 @@ import kernels, tvlib
 from speclib import pen_instances_1d, block_instances, VALS
 
 GEN_SOURCES = ["skglm/penalties/separable.py", "skglm/penalties/block_separable.py", "skglm/utils/prox_funcs.py", "skglm/solvers/common.py"]
-EXTRA_TARGETS = ["Gen/ProxFuncs.vo", "Gen/PenSeparable.vo", "Gen/PenBlock.vo", "Gen/KernCD.vo"]
+EXTRA_TARGETS = ["Gen/ProxFuncs.vo", "Gen/PenSeparable.vo", "Gen/PenBlock.vo", "Gen/KernCD.vo", "Gen/KernBCD.vo", "Gen/DfGroup.vo", "Gen/SparseOps.vo"]
 TRUSTED_BASE = [
     "Coq 8.16.1 kernel (coqc); vm_compute only in correspondence files",
     "axioms: Reals (sig_forall_dec, sig_not_dec), functional_extensionality_dep, Classical_Prop.classic",
@@ -37,9 +37,10 @@ def correspondence(tier, rng):
     for lab, *_ in cases:
         k = lab.split("(")[0]
         dist[k] = dist.get(k, 0) + 1
-    return dict(cases=len(cases), bad=r["bad"][:20], errors=r["errors"], distribution=dist,
+    base = dict(cases=len(cases), bad=r["bad"][:20], errors=r["errors"], distribution=dist,
                 distinct_nontrivial=len({c[0] for c in cases}),
                 samples=[dict(case=c[0], model=c[1], expected=c[3]) for c in cases[:3]])
+    return kernels.add_bcd_kernel_corr(base, rng, 140 if tier == "quick" else 840, "C08k", only=["dist_fix_point_bcd", "bcd_construct_grad"])
 
 
 def _interval(pen, feas, w, j, h=1e-7):
